@@ -1,0 +1,9 @@
+//go:build verif
+
+package io
+
+// VerifCursor exposes the number of consumed slots (position + 1) to the
+// verification harness in /verif. Compiled only with the "verif" build tag.
+func (c *StringScanner) VerifCursor() int {
+	return c.position + 1
+}
